@@ -153,6 +153,10 @@ var forcedHelpers = []string{
 	"tars/protocol/codec|Reader|skipFieldMap",
 	"tars/protocol/codec|Reader|skipFieldList",
 	"tars/protocol/codec|Reader|skipFieldSimpleList",
+	// conf: the one-statement mutators of elem; the line-grammar rule looks at their effects
+	"tars/util/conf|elem|setValue",
+	"tars/util/conf|elem|addChild",
+	"tars/util/conf|elem|addLine",
 }
 
 func newFuncKeys(repo string) map[string]bool {
